@@ -14,9 +14,10 @@ CONSTANTS Lines,         \* catalogue: sequence of line contents (symbol sequenc
 
 \* template characters
 TCDollar == 1  TCOpen == 2  TCClose == 3  TC1 == 4  TC2 == 5  TCx == 6  TCDash == 7  TC0 == 8  TCa == 9  TCUnd == 10
-IsCapLetter(c) == c \in {TC1, TC2, TCx, TC0, TCa, TCUnd}      \* [0-9A-Za-z_]
-IsDigit(c) == c \in {TC1, TC2, TC0}
-DigitVal(c) == IF c = TC1 THEN 1 ELSE IF c = TC2 THEN 2 ELSE 0
+TC4 == 11  TC9 == 12  TC6 == 13  TC7 == 14   \* further digits, only for group numbers beyond u32 (picked templates)
+IsCapLetter(c) == c \in {TC1, TC2, TCx, TC0, TCa, TCUnd, TC4, TC9, TC6, TC7}      \* [0-9A-Za-z_]
+IsDigit(c) == c \in {TC1, TC2, TC0, TC4, TC9, TC6, TC7}
+DigitVal(c) == CASE c = TC1 -> 1 [] c = TC2 -> 2 [] c = TC4 -> 4 [] c = TC9 -> 9 [] c = TC6 -> 6 [] c = TC7 -> 7 [] OTHER -> 0
 
 \* ---- named groups: user AST node [k |-> "ngrp", a, name]; numbering left to right with "grp"
 RECURSIVE LowerN(_, _, _, _)
@@ -61,7 +62,10 @@ CapText(m, idx, content) ==   \* m = <<start, end, caps>>; group 0 is the whole 
 NameIndex(names, nm) == LET hit == {p \in names : p[1] = nm} IN IF hit = {} THEN 99 ELSE (CHOOSE p \in hit : TRUE)[2]
 
 RECURSIVE NumVal(_, _)
-NumVal(ds, acc) == IF ds = <<>> THEN acc ELSE NumVal(Tail(ds), acc * 10 + DigitVal(Head(ds)))
+\* saturating at 99 = "no such group": a number that does not fit the group index type names no group (it is then looked up
+\* as a name, which no group has), and TLC's integers are 32-bit as well
+NumVal(ds, acc) == IF ds = <<>> THEN acc
+                   ELSE LET v == acc * 10 + DigitVal(Head(ds)) IN NumVal(Tail(ds), IF v > 99 THEN 99 ELSE v)
 
 \* name (sequence of cap letters) -> group index, or 99 when there is no such group
 RefIndex(nameSeq, names) ==
